@@ -252,3 +252,24 @@ CHECKS['C06']['text'] += (
     " T2, second sentence (Coq, Inv/Admit.v, function level): rejected_iff_full / release_individual_admission - in the engine model an external arrival gets a rejection record (type 4, "
     "showing the population seen) and goes to the exit at once if and only if its node or the system is full at that instant; otherwise it baulks by its own decision (u < p for the population seen) "
     "or is counted as accepted and handed to the node's accept.")
+
+# ---- T2 on the STAGE-2 engine model (coq/Engine/Engine2.v; statements in Properties/Cnn_stage2.v) ----
+CHECKS['C01']['text'] += (
+    " T2 on the STAGE-2 engine model (routers, reneging with jockeying, priority pre-emption incl. reroute, Schedules, slotted services, class change while waiting; "
+    "Inv/Conserve2.v): event_step_conserves2 / run_many_conserves2 / WFx2_means / exit_is_permanent2 - conservation holds for EVERY configuration with no scope restriction and no "
+    "hypothesis on the draws (also inside the regions of the open findings, whenever the run does not raise); wfx2_b (sound) is evaluated on every real snapshot the stage-2 K2 visits.")
+CHECKS['C12']['text'] += (
+    " T2 on the STAGE-2 engine model (Inv/Sched2.v, 1 460 lines): run_many_sched / SchedInv_means / shift_changes_follow_timetable / zero_scheduled - for every configuration and oracle, at every "
+    "event boundary a scheduled node at generator position k has its next shift change at D k, c = C (k-1), exactly max(0, c) servers on duty with distinct ids, off-duty servers only under a non-pre-emptive "
+    "schedule and only busy ones (overtime); a shift change is never overdue and runs exactly at its date; change_shift_spec, free_server_on_duty, no_free_server_when_zero (no service starts while zero servers "
+    "are scheduled: there is no free server and no pre-emption is attempted); start_offduty_refuted is a closed witness of the open finding F-12d. sched_inv_b / next_inv_b (sound) hold on every real snapshot visited.")
+CHECKS['C11']['text'] += (
+    " T2 on the STAGE-2 engine model (Inv/Preempt2.v, 1 700 lines): preempt_victim_spec - the victim is in service, of strictly lower priority than the pre-emptor, of the lowest priority in service and the FIRST "
+    "of the latest-started among those (Python's max); preempt_spec (one interruption record dated now, the victim's remaining time = end - now, the pre-emptor takes its server, nobody else changes); "
+    "resume_gives_time_left / restart_gives_original / resample_gives_fresh; preempt_resume_telescope ((now - start) + time_left = requirement per stint) and run_many_SvcInv (service stamps stay consistent over any "
+    "number of events; scope: no pre-emptive schedules / slots); clock_monotone_refuted / time_left_nonneg_refuted are closed witnesses of the open finding F-02a. Not covered: the reroute option of preempt.")
+CHECKS['C13']['text'] += (
+    " T2 on the STAGE-2 engine model (Inv/Renege2.v, 2 450 lines): release_individual_spec / never_baulks_at_0 / always_baulks_at_1 (an arrival baulks iff 4u < p4 * 2^53 for the population seen, is then at the exit "
+    "at once with a baulk record and never enters); accept_stamps (reneging date = now + sampled patience), next_renege_selected (the customer a renege event removes waits, holds no server, and its date is now and minimal), "
+    "renege_spec (record, jockeying destination, unblocking); run_many_RenInvF / RenInv_means (scope: no pre-emption of any kind; patience draws >= 0): every waiting customer's date is >= now - nobody outwaits its patience - "
+    "and no renege is ever scheduled in the past; no_past_renege_refuted is a closed witness of the open finding F-02c outside that scope. RenInv_b (sound) holds on every real in-scope snapshot visited.")
